@@ -945,3 +945,43 @@ Lemma alloc_from_assets_perm R stakers_of power assets assets' rewards :
   feq (fst (alloc_from_assets R stakers_of power assets rewards)) (fst (alloc_from_assets R stakers_of power assets' rewards)) /\
   snd (alloc_from_assets R stakers_of power assets rewards) = snd (alloc_from_assets R stakers_of power assets' rewards).
 Proof. intros P. unfold alloc_from_assets. apply alloc_accum_perm, flat_map_perm, P. Qed.
+
+(* ---------------------------------------------------------------------------------------------- *)
+(* RemoveNonceWithFeederIDForAll                                                                     *)
+
+Lemma seal_consume_all_perm keys fs fs' st :
+  NoDup keys -> Permutation fs fs' -> feq (seal_consume_all keys fs st) (seal_consume_all keys fs' st).
+Proof.
+  intros ND P. unfold seal_consume_all.
+  apply (seal_consume_perm (fun _ => keys) (fun _ => keys)); [intros _; exact ND|intros _; apply Permutation_refl|exact P].
+Qed.
+
+(* a validator without a row stays without one, whether or not the iteration lists it *)
+Lemma remove_nonce_absent f vals st x : NoDup vals -> st x = None -> remove_nonce_for f vals st x = None.
+Proof.
+  intros ND H. unfold remove_nonce_for. rewrite keyed_fold_id_pointwise by exact ND.
+  destruct (existsb (Z.eqb x) vals); rewrite H; reflexivity.
+Qed.
+
+Lemma nodup_app_l_c08 {A} (l1 l2 : list A) : NoDup (l1 ++ l2) -> NoDup l1.
+Proof.
+  induction l1 as [|a l1 IH]; simpl; intros H; [constructor|].
+  inversion H as [|? ? Hn ND]; subst. constructor; [|apply IH, ND].
+  intro Hin. apply Hn. apply in_or_app. left. exact Hin.
+Qed.
+
+(* listing additional validators that have no row changes nothing: the store iteration of a later feeder (which no
+   longer sees rows deleted by an earlier one) and the initial key list describe the same writes *)
+Lemma remove_nonce_extra_keys f vals extra st :
+  NoDup (vals ++ extra) -> (forall x, In x extra -> st x = None) ->
+  feq (remove_nonce_for f (vals ++ extra) st) (remove_nonce_for f vals st).
+Proof.
+  intros ND H x. unfold remove_nonce_for.
+  rewrite keyed_fold_id_pointwise by exact ND.
+  rewrite keyed_fold_id_pointwise by (apply nodup_app_l_c08 in ND; exact ND).
+  rewrite existsb_app.
+  destruct (existsb (Z.eqb x) vals); simpl; [reflexivity|].
+  destruct (existsb (Z.eqb x) extra) eqn:E; [|reflexivity].
+  apply existsb_exists in E. destruct E as [y [Hy Ey]]. apply Z.eqb_eq in Ey. subst y.
+  rewrite (H x Hy). reflexivity.
+Qed.
